@@ -49,6 +49,9 @@ func program(c Case) (*gen.Program, string) {
 		return gen.Replay(c.Choices, gen.Funcs(gen.FuncCfg{Budget: c.Budget})), "func"
 	case "tails":
 		return gen.Tails(c.Kind, c.K), "tails:" + c.Kind
+	case "dce":
+		p := gen.Replay(c.Choices, gen.Dce)
+		return p.Prog, p.Placement
 	}
 	return nil, ""
 }
@@ -209,6 +212,7 @@ func main() {
 		{"cflow", Case{Family: "cflow", Budget: r.Pick(3, 4), Depth: 2}},
 		{"cflow-rich", Case{Family: "cflow", Budget: r.Pick(2, 3), Depth: 2, Rich: true}},
 		{"func", Case{Family: "func", Budget: r.Pick(2, 3)}},
+		{"dce", Case{Family: "dce"}},
 	}
 	for _, f := range fams {
 		f := f
@@ -237,6 +241,8 @@ func main() {
 		case "func":
 			g := gen.Funcs(gen.FuncCfg{Budget: f.c.Budget})
 			gen.ParallelEnumerate(g, 3, func(p *gen.Program, ch []int) { visit(ch, tg.Print(p).AllText) })
+		case "dce":
+			gen.ParallelEnumerate(gen.Dce, 3, func(p gen.CflowProgram, ch []int) { visit(ch, tg.Print(p.Prog).AllText) })
 		}
 	}
 	var tails []Case
